@@ -4,10 +4,14 @@ use futures::future::{AbortHandle, AbortRegistration};
 use std::{
     collections::hash_map,
     task::{Context, Poll},
-    time::Instant,
+    time::{Duration, Instant},
 };
 use tokio_util::time::delay_queue::{self, DelayQueue};
 use tracing::Span;
+
+/// The longest timeout handed to the timer queue, which panics on timeouts beyond its range (about
+/// 2.2 years). Deadlines further away than this are enforced after this long.
+const MAX_TIMEOUT: Duration = Duration::from_secs(60 * 60 * 24 * 365);
 
 /// A data structure that tracks in-flight requests. It aborts requests,
 /// either on demand or when a request deadline expires.
@@ -54,7 +58,7 @@ impl InFlightRequests {
     ) -> Result<AbortRegistration, AlreadyExistsError> {
         match self.request_data.entry(request_id) {
             hash_map::Entry::Vacant(vacant) => {
-                let timeout = deadline.time_until();
+                let timeout = deadline.time_until().min(MAX_TIMEOUT);
                 let (abort_handle, abort_registration) = AbortHandle::new_pair();
                 let deadline_key = self.deadlines.insert(request_id, timeout);
                 vacant.insert(RequestData {
